@@ -160,8 +160,10 @@ func ecKey(r *core.Rand, crv elliptic.Curve, kind int) *ecdsa.PrivateKey {
 	default:
 		d = new(big.Int).SetBytes(r.Bytes((n.BitLen() + 7) / 8))
 	}
-	d.Mod(d, new(big.Int).Sub(n, big.NewInt(1)))
-	d.Add(d, big.NewInt(1)) // 1..n-1
+	if d.Sign() <= 0 || d.Cmp(n) >= 0 {
+		d.Mod(d, new(big.Int).Sub(n, big.NewInt(1)))
+		d.Add(d, big.NewInt(1)) // 1..n-1
+	}
 	k := &ecdsa.PrivateKey{D: d}
 	k.Curve = crv
 	k.X, k.Y = crv.ScalarBaseMult(d.Bytes())
@@ -335,11 +337,13 @@ func keyCase(c *core.Ctx, r *core.Rand, i int) {
 		}
 	case 2, 3: // ECDSA
 		crv := curves[(i/90)%4]
-		key := ecKey(r, crv, i/360)
+		key := ecKey(r, crv, i/30+r.Intn(7)) // scalar kinds: 1, n-1, 2^k, leading zero bytes, top bit set, random
 		c.Count("ec."+crv.Params().Name, 1)
 		c.Count("ec.d-starts-"+startsWith(key.D), 1)
 		if len(key.D.Bytes()) < (crv.Params().N.BitLen()+7)/8 {
 			c.Count("ec.d-leading-zero-byte", 1)
+		} else {
+			c.Count("ec.d-full-width."+crv.Params().Name, 1)
 		}
 		for _, f := range []fmtSpec{{"SEC1", kmipclient.SEC1}, {"PKCS8", kmipclient.PKCS8}, {"Transparent", kmipclient.Transparent}} {
 			label := fmt.Sprintf("ECDSA %s private key as %s at 1.%d via %s", crv.Params().Name, f.name, minor, enc)
@@ -719,7 +723,7 @@ func Spec() *core.Spec {
 			"distinct = distinct (key, format, version, encoding) transports and distinct degraded tree shapes",
 		Assumptions: []string{"keys smaller than production size exercise the same code paths; a few 1024-bit moduli are included", "mathematical equality = Equal() of crypto/rsa and crypto/ecdsa, byte equality for symmetric keys and secrets"},
 		Required: []string{"transports", "accessor_calls", "degraded_decodable", "degraded_accessor_calls", "rsa.d-leading-zero-byte", "rsa.d-starts-hi", "rsa.d-starts-lo", "ec.P-224", "ec.P-256", "ec.P-384", "ec.P-521",
-			"ec.d-leading-zero-byte", fmt.Sprintf("ec.transparent.format-%d", kmip.KeyFormatTypeTransparentECDSAPrivateKey), fmt.Sprintf("ec.transparent.format-%d", kmip.KeyFormatTypeTransparentECPrivateKey)},
+			"ec.d-leading-zero-byte", "ec.d-full-width.P-521", "ec.d-full-width.P-256", fmt.Sprintf("ec.transparent.format-%d", kmip.KeyFormatTypeTransparentECDSAPrivateKey), fmt.Sprintf("ec.transparent.format-%d", kmip.KeyFormatTypeTransparentECPrivateKey)},
 		Families: []core.Family{
 			{Name: "keys", N: nOf(1440, 72000), Run: keyCase},
 			{Name: "degraded", N: nOf(19*32, 19*32*40), Run: degradedCase},
